@@ -69,6 +69,33 @@ ENTRIES = {
 }
 
 
+class NeedsCache(object):
+    """disk cache of the cell-liveness pre-analysis (it depends on the sources, the entry and the alphabet only)"""
+
+    def __init__(self, ctx, suf, entry):
+        self.base = os.path.join(CACHE, 'needs_%s_%s_%s_%s' % (ctx.prog.meta['key'][:24], engine_hash(), suf, entry))
+
+    def path(self, key):
+        return '%s_%s.pkl' % (self.base, hashlib.sha256(repr(key).encode()).hexdigest()[:16])
+
+    def get(self, key):
+        try:
+            with open(self.path(key), 'rb') as f:
+                return pickle.load(f)
+        except Exception:
+            return None
+
+    def put(self, key, needs, nstates):
+        try:
+            os.makedirs(CACHE, exist_ok=True)
+            tmp = self.path(key) + '.%d.tmp' % os.getpid()
+            with open(tmp, 'wb') as f:
+                pickle.dump(needs, f, protocol=pickle.HIGHEST_PROTOCOL)
+            os.replace(tmp, self.path(key))
+        except OSError:
+            pass
+
+
 def _compute(ctx, suf, entry, monitor_kind, log=None):
     dfa, info = rfc3986_dfa('ipv4address' if entry == 'ip4' else 'uri-reference')
     base, mkargs, nul, where = ENTRIES[entry]
@@ -79,6 +106,7 @@ def _compute(ctx, suf, entry, monitor_kind, log=None):
     def setup(m, st):
         if where == 'STATE':
             st.env[(STATE, ('uri',))] = ('a', URI, ())
+        m.tracking = monitor_kind.startswith('peb') and not m.optimistic
         m.push_frame(st, fname, mkargs(m), None, False, None)
     if monitor_kind == 'cls':
         from .abnf import indicator_dfas
@@ -87,11 +115,23 @@ def _compute(ctx, suf, entry, monitor_kind, log=None):
         mon = ClassifierMonitor(names, dfas)
         base_classes = joint
         dfa = dfas[0]
+    elif monitor_kind.startswith('peb'):
+        from .abnf import pebble_dfa, symbol_partition, NSYM
+        from .e1monitor import PebbleMonitor, BOUNDARIES
+        sel = [int(x) for x in monitor_kind.split(':')[1].split(',')] if ':' in monitor_kind else list(range(len(BOUNDARIES)))
+        pdfas = [pebble_dfa(tag, end, multi) for (_n, _p, tag, end, multi) in [BOUNDARIES[k] for k in sel]]
+        mon = PebbleMonitor(dfa, pdfas)
+        sig = {}
+        base_classes = [0] * NSYM
+        for sym in range(NSYM):
+            k = (dfa.class_of[sym],) + tuple(d.class_of[sym] for d in pdfas)
+            base_classes[sym] = sig.setdefault(k, len(sig))
     else:
         mon = DfaMonitor(dfa)
         base_classes = dfa.class_of
     workers = int(os.environ.get('E1_WORKERS', '12'))
-    res = explore(ctx, suf, fname, setup, mon, base_classes, nul=nul, log=log, workers=workers)
+    res = explore(ctx, suf, fname, setup, mon, base_classes, nul=nul, log=log, workers=workers,
+                  needs_cache=NeedsCache(ctx, suf, entry))
     al = res.alphabet
     finals = []
     for (m, st, val, nid) in res.finals:
@@ -104,9 +144,13 @@ def _compute(ctx, suf, entry, monitor_kind, log=None):
         code2 = st.env.get((STATE, ('errorCode',))) if where == 'STATE' else None
         regs = dict((k[1], v) for k, v in st.env.items() if k[0] == URI)
         ind = mon.indicators(m) if monitor_kind == 'cls' else None
+        pebv = None
+        if monitor_kind.startswith('peb'):
+            pebv = {'spec': mon.verdicts(m) if m[1] is None and m[4] else None, 'sel': sel, 'pa': m[5], 'segb': m[6], 'sege': m[7]}
+            m = tuple(m[:4])
         if monitor_kind == 'cls':
             m = (m[0][0],) + tuple(m[1:])
-        finals.append({'ind': ind, 'm': m, 'ret': val, 'errpos': ep, 'errcode': code2, 'eof': st.eof, 'oom': bool(st.flags.get('oom')),
+        finals.append({'ind': ind, 'peb': pebv, 'm': m, 'ret': val, 'errpos': ep, 'errcode': code2, 'eof': st.eof, 'oom': bool(st.flags.get('oom')),
                        'heap': dict(st.heap), 'nid': nid, 'regs': regs})
     finds = []
     for (f, nid, m) in res.findings:
@@ -159,7 +203,7 @@ def get(ctx, suf, entry='single-mm', monitor_kind='dfa', log=None):
         # keep the cache small
         olds = sorted((os.path.getmtime(os.path.join(CACHE, f)), f) for f in os.listdir(CACHE)
                       if f.startswith('e1_') and f.endswith('.pkl'))
-        for _, f in olds[:-24]:
+        for _, f in olds[:-60]:
             try:
                 os.unlink(os.path.join(CACHE, f))
                 os.unlink(os.path.join(CACHE, f + '.lock'))
